@@ -84,6 +84,15 @@ def main():
             meta["needs_to_manifest"] = open(notes).read()[:1500]
         dst = os.path.join(V, "seeded", name)
         os.makedirs(dst, exist_ok=True)
+        old = os.path.join(dst, "meta.json")
+        if a.skip_suite and os.path.exists(old):
+            # a re-validation after strengthening a check keeps the suite result and the history of the first run
+            prev = json.load(open(old))
+            for k in ("suite_passes", "suite_with_change", "first_run_missed", "strengthening"):
+                if k in prev:
+                    meta[k] = prev[k]
+            if not prev.get("detected_by") and meta["detected_by"]:
+                meta["first_run_missed"] = True
         for f in ("patch.diff", "demo.py", "notes.md"):
             if os.path.exists(os.path.join(a.src, f)):
                 shutil.copy(os.path.join(a.src, f), os.path.join(dst, f))
